@@ -603,6 +603,53 @@ class CheckpointChunkAny:
         yield dict(chunk=full + big[1000], cp=hh(full).decode(), height=999, missing=True)
 
 
+@proof("C07", "checkpoint.scan-on-open")
+class CheckpointScanOnOpen:
+    """get_all_missing_headers (the scan open() runs over the checkpointed region of the header file): for ARBITRARY file content and
+    arbitrary checkpoint values, afterwards a checkpointed chunk is listed as missing exactly if it was listed before or its 1000
+    headers do not hash to the checkpoint - every chunk is examined, whatever the chunks above or below it contain - so has_header()
+    vouches only for chunks that hash to their checkpoint (three checkpoints)"""
+    inputs = dict(blob=TBytes(length=3000 * 112), cp0=TStr(), cp1=TStr(), cp2=TStr(), m0=TBool(), m1=TBool(), m2=TBool())
+    note = "files of three chunks: all authentic, each single chunk zeroed / altered, only the top chunk present (download in progress)"
+
+    async def run(blob, cp0, cp1, cp2, m0, m1, m2):
+        import io
+        h = NoCheckpoints(':memory:')
+        h.io = io.BytesIO(blob)
+        h._size = 3000
+        h.checkpoints = {0: cp0, 1000: cp1, 2000: cp2}
+        h.known_missing_checkpointed_chunks = set()
+        if m0:
+            h.known_missing_checkpointed_chunks.add(0)
+        if m1:
+            h.known_missing_checkpointed_chunks.add(1000)
+        if m2:
+            h.known_missing_checkpointed_chunks.add(2000)
+        missing = await h.get_all_missing_headers()
+        return (0 in missing, 1000 in missing, 2000 in missing, h.has_header(5), h.has_header(1999), h.has_header(2000))
+
+    def ensures_missing_iff_listed_before_or_not_the_checkpoint(blob, cp0, cp1, cp2, m0, m1, m2, result):
+        size = 1000 * 112
+        want0 = m0 or hexlify(double_sha256(blob[:size])[::-1]).decode() != cp0
+        want1 = m1 or hexlify(double_sha256(blob[size:2 * size])[::-1]).decode() != cp1
+        want2 = m2 or hexlify(double_sha256(blob[2 * size:3 * size])[::-1]).decode() != cp2
+        return result[0] == want0 and result[1] == want1 and result[2] == want2
+
+    def ensures_has_header_only_for_chunks_not_missing(result):
+        return result[3] == (not result[0]) and result[4] == (not result[1]) and result[5] == (not result[2])
+
+    def samples():
+        chain = _cached_chain(3000)
+        chunks = [b''.join(chain[i * 1000:(i + 1) * 1000]) for i in range(3)]
+        cps = [hh(c).decode() for c in chunks]
+        zero = bytes(1000 * 112)
+        altered = chunks[1][:5000] + b'\xff' + chunks[1][5001:]
+        for blob in (b''.join(chunks), zero + chunks[1] + chunks[2], chunks[0] + zero + chunks[2], zero + zero + chunks[2],
+                     chunks[0] + altered + chunks[2], zero * 3, chunks[0] + chunks[1] + zero):
+            for m in ((False, False, False), (True, False, False), (False, False, True)):
+                yield dict(blob=blob, cp0=cps[0], cp1=cps[1], cp2=cps[2], m0=m[0], m1=m[1], m2=m[2])
+
+
 TRUSTED = [
     "sha256/sha512/ripemd160 are functions of their input (uninterpreted); hexlify and byte reversal are injective, length-preserving",
     "struct pack/unpack for '<I' / '<III' (little-endian 32-bit fields); io.BytesIO seek/write/read/truncate/getbuffer semantics",
@@ -616,6 +663,6 @@ NOT_DECIDED = [
     "restart/repair for all file contents (bounded: chains up to 74 headers, every damaged position, cuts near the tip); damage confined "
     "to non-link fields of the tip is not detected by repair (links only) until the next connect",
     "fork handling in Ledger.update_headers (C08 carries the cache clause); the zlib/base64 transport of checkpoint chunks (identity in the "
-    "deductive proof, real in the bounded cases); get_all_missing_headers on open",
+    "deductive proof, real in the bounded cases); more than three checkpointed chunks in the scan on open",
 ]
 ASSUMPTIONS = ["batches are a multiple of 112 bytes (asserted by the code)"]
